@@ -162,6 +162,11 @@ func loadEngine(repo string, ov map[string][]byte) (*Engine, error) {
 	}
 	e.baseGlobals = map[*ssa.Global]int32{}
 	e.setupIntrinsics()
+	for real, model := range map[string]string{"sort.Slice": "vmSortSlice"} {
+		if f := e.logPkg.Func(model); f != nil {
+			e.redirects[real] = f
+		}
+	}
 	// *errors.errorString
 	errPkg := prog.ImportedPackage("errors")
 	if errPkg == nil {
@@ -440,8 +445,15 @@ func (e *Engine) record(w *Worker, s *State) {
 			e.addViolation(s, s.outcome, s.outcome, s.detail)
 		}
 	case "UNWIND", "ERROR", "UNKNOWN":
-		if len(res.Inconcl) < 20 {
-			res.Inconcl = append(res.Inconcl, s.outcome+": "+s.detail)
+		msg := s.outcome + ": " + s.detail
+		dup := false
+		for _, m := range res.Inconcl {
+			if m == msg {
+				dup = true
+			}
+		}
+		if !dup && len(res.Inconcl) < 8 {
+			res.Inconcl = append(res.Inconcl, msg)
 		}
 	}
 	// sample
